@@ -251,11 +251,12 @@ CLAIMED = {
              "stretched source (the intensity scale set by the pixel size), and the chord bound for every entry of the degree-0 "
              "forward operator; with C09 the daun / onion-peeling forward operators are the Abel integrals of their basis functions, which "
              "gives machine-checked a-priori envelopes: degree 0 errs by ≤ L·√((n−½)²−i²) on L-Lipschitz sources (every size, pixel), degree 1 "
-             "by ≤ 2ε·√(n²−i²) with ε the linear-interpolation error. "
-             "Tie: Lean operator models vs implementation arrays. Oracle: as C01 for direction='forward' (basex, daun, direct incl. "
+             "by ≤ 2ε·√(n²−i²) with ε the linear-interpolation error; rBasex's radial matrices (as _bs_rbasex computes them, every angular "
+             "order) project every radially piecewise-linear distribution Σ c_R b_R(ρ) cosⁿθ exactly, at every integer distance and Rmax. "
+             "Tie: Lean operator models vs implementation arrays (daun, onion peeling, the _bs_rbasex model entrywise). Oracle: as C01 for direction='forward' (basex, daun, direct incl. "
              "explicit r grids, hansenlaw, rbasex incl. explicit origin) at dr 1 and 0.5.",
-        note="Partial: numerical envelopes measured (2x frozen pinned-tree error), not proved; hansenlaw/direct/basex/rbasex forward "
-             "operators are not modelled in Lean. Trusted: Lean kernel + standard axioms; the frozen baseline; numpy Gauss–Legendre.",
+        note="Partial: numerical envelopes measured (2x frozen pinned-tree error), not proved; hansenlaw/direct forward recursions are modelled "
+             "(C04) without an accuracy theorem, basex is not modelled; rbasex's image-level pipeline (folding, Distributions) is oracle only. Trusted: Lean kernel + standard axioms; the frozen baseline; numpy Gauss–Legendre.",
         technique="Lean 4 proof (Mathlib set integrals, change of variables) + operator correspondence + closed-form/quadrature oracle",
         design="§3 C02"),
 }
